@@ -465,32 +465,8 @@ fn raw_disclosure_part(rep: &mut Report, seed: u64, n_runs: usize, k: usize, p: 
     rep.add("raw_disclosure_bit_positions", (nbytes * 8) as u64);
     rep.add("raw_disclosure_wires", k as u64);
     rep.distinct.insert(format!("raw-disclosure|{role}|inputs={k}"));
-    let nth = threads();
-    let chunk = nbytes.div_ceil(nth).max(1);
-    let hits: Vec<Vec<(usize, usize, (usize, &'static str, bool))>> = parallel_for(nth, nth, |t| {
-        let mut found = vec![];
-        let lo = t * chunk;
-        let hi = ((t + 1) * chunk).min(nbytes);
-        for b in lo..hi {
-            let mut v = [0u64; 8];
-            for (e, r) in good.iter().enumerate() {
-                let byte = r.sent[b];
-                for (i, vi) in v.iter_mut().enumerate() {
-                    *vi |= (((byte >> i) & 1) as u64) << e;
-                }
-            }
-            for (i, vi) in v.iter().enumerate() {
-                if *vi == 0 || *vi == full {
-                    continue; // constant bit
-                }
-                if let Some(h) = keys.get(vi) {
-                    found.push((b, i, *h));
-                    if found.len() > 64 { return found; }
-                }
-            }
-        }
-        found
-    });
+    let sent: Vec<&[u8]> = good.iter().map(|r| r.sent.as_slice()).collect();
+    let hits = crate::leak::fixed_position_hits(&sent, &keys);
     let label_of = |pos: usize| -> (String, usize, usize) {
         let mut cur = (String::from("?"), 0, 0);
         for (l, kk, s) in &good[0].layout {
@@ -500,7 +476,7 @@ fn raw_disclosure_part(rep: &mut Report, seed: u64, n_runs: usize, k: usize, p: 
     };
     let mut reported: std::collections::HashSet<(String, &'static str)> = Default::default();
     let mut total = 0usize;
-    for (b, bit, (w, what, compl)) in hits.into_iter().flatten() {
+    for (b, bit, (w, what, compl)) in hits {
         total += 1;
         let (label, kk, off) = label_of(b);
         if reported.insert((label.clone(), what)) {
